@@ -26,7 +26,7 @@ def showOptId (o : Option Nat) : String := match o with | some i => toString i |
 
 def showDelivery (bits : Nat) (d : Delivery) : String :=
   let ev := d.ev
-  s!"! {d.sub} {showEnt ev.entity} +{showIds (Mask.toList ev.added bits)} -{showIds (Mask.toList ev.removed bits)} a{showIds (sortNat ev.addedIDs)} r{showIds (sortNat ev.removedIDs)} {showOptId ev.oldRel} {showOptId ev.newRel} {showEnt ev.oldTarget} {ev.types} L{b01 d.locked} A{b01 d.alive} T{match d.curTarget with | some t => showEnt t | none => "-"}"
+  s!"! {d.sub} {showEnt ev.entity} +{showIds (Mask.toList ev.added bits)} -{showIds (Mask.toList ev.removed bits)} a{showIds (sortNat ev.addedIDs)} r{showIds (sortNat ev.removedIDs)} {showOptId ev.oldRel} {showOptId ev.newRel} {showEnt ev.oldTarget} {ev.types} L{b01 d.locked} A{b01 d.alive} T{match d.curTarget with | some t => showEnt t | none => "-"} V[{csv (d.vals.map (fun (i, v) => s!"{i}={v}"))}]"
 
 namespace World
 def tableName (w : World) (t : Nat) : String :=
